@@ -451,5 +451,4 @@ TRUSTED = [
     "interposition: the harness executable defines sched_setaffinity, sched_getaffinity, sched_getcpu and syscall() (mbind, set_mempolicy, get_mempolicy, migrate_pages, move_pages); these are all the binding-related imports of topology-linux.o (checked with nm); /proc/<pid>/task, /proc/<tid>/stat and mmap are not interposed (model: K_tasklist, K_lastcpu, K_mmap answered as a single-threaded process)",
     "recording hooks: struct hwloc_binding_hooks layout from include/private/private.h of the current tree",
     "LIVE PART IS OBSERVED, NOT PROVED: round trip set->get->last_cpu_location over subsets of the allowed CPUs and affinity before/after hwloc_topology_load (default, IS_THISSYSTEM, HWLOC_COMPONENTS=x86 / x86,stop / -x86, RESTRICT_TO_CPUBINDING) on this sandbox's kernel; x86_restores_binding is proved only against an idealised affinity model",
-    "ASan's malloc fill byte 0xbe stands for the uninitialised words the model calls heap_garbage (only matters for the known finding get-area-membind-uninit-mask)",
 ]
